@@ -834,6 +834,8 @@ fn evaluate(d: &Design) -> EvalOut {
     st.masters_not_asserted_no_kerning = (nm - with_kerning.len()) as u64;
 
     // ---- compile
+    let prof = std::env::var("C09_PROFILE").is_ok();
+    let tp = std::time::Instant::now();
     let sc = vcore::Scratch::new("c09");
     let path = match d.write_designspace(sc.path()) {
         Ok(p) => p,
@@ -842,8 +844,11 @@ fn evaluate(d: &Design) -> EvalOut {
             return out;
         }
     };
+    let t_write = tp.elapsed();
     let r = compile_fresh(&path);
+    let t_compile = tp.elapsed();
     drop(sc);
+    let t_drop = tp.elapsed();
     let bytes = match r {
         Ok(b) => b,
         Err(e) => {
@@ -1000,6 +1005,9 @@ fn evaluate(d: &Design) -> EvalOut {
         }
     }
     st.fonts_with_several_kern_lookups = several_lookups as u64;
+    if prof {
+        eprintln!("profile: write {t_write:?} compile {t_compile:?} drop {t_drop:?} total {:?}", tp.elapsed());
+    }
     let nontrivial = any_nonzero && !with_kerning.is_empty();
     st.cases_nontrivial = nontrivial as u64;
     if !problems.is_empty() {
